@@ -15,9 +15,16 @@
            payload [num; indices; values; steps]   steps = list of [code; cs; vf]
            code 1 stream, 2 indexed stream, 3 map_valid, 4 safe_map_values, 5 safe_map_indexed_values,
                 6 stream with the map as its own source
-           answer: [[out...]; [map; num; indices; values]] (out = list, or [indices; values]) *)
+           answer: [[out...]; [map; num; indices; values]] (out = list, or [indices; values])
+     op 10 CALL FORM of ordered_map_valid_stream, numeric/bool (Model/MapCallForms.v)   payload [data; args]
+     op 11 the same, fixed-string source                                               payload [data; args]
+     op 12 CALL FORM of ordered_map_valid_indexed_stream                               payload [indices; values; args]
+           args = [inv_given; cs; vf; pcs; pvf]: inv_given 0 = `invalid` omitted (the head's invcode is then 0);
+           cs / vf = -1 when the argument is omitted (the model supplies DEFAULT_CHUNKSIZE / 8); pcs, pvf = the proxy
+           sizes for stream_call_eval / indexed_stream_call_eval (theorems *_call_eval_correct); the head's cs, vf
+           are ignored *)
 From Coq Require Import ZArith List Bool.
-From EV Require Import Res Arr Val MapStream MapStreamSpec MapHistorySpec MapHistory.
+From EV Require Import Res Arr Val MapStream MapStreamSpec MapHistorySpec MapHistory MapCallForms.
 Import ListNotations.
 Open Scope Z_scope.
 
@@ -52,6 +59,9 @@ Definition vout04 (o:hout) : val :=
   match o with ONum l => vlist l | OIdx i v => VL [vlist i; vlist v] end.
 Definition vhstate04 (s:hstate) : val :=
   VL [VL (map vout04 (h_out s)); VL [vlist (h_map s); vlist (h_num s); vlist (h_idx s); vlist (h_val s)]].
+
+Definition optarg04 (z:Z) : option Z := if z <? 0 then None else Some z.
+Definition optinv04 (given inv:Z) : option Z := if given =? 0 then None else Some inv.
 
 Definition entry_C04 (v:val) : val :=
   match v with
@@ -114,6 +124,27 @@ Definition entry_C04 (v:val) : val :=
                 vhstate04 (history_spec m d di dv inv steps)]
           | None => vbad end
         | _, _, _, _ => vbad end
+      | 10, [d; a] =>
+        match as_list d, as_list a with
+        | Some d, Some [ig; c; _; pcs; _] =>
+          let oi := optinv04 ig inv in
+          VL [of_res vlist (stream_call_eval 0 0 (c04_fuel m d) d m oi (optarg04 c) pcs);
+              vlist (map_spec 0 d (opt_default oi DEFAULT_INVALID) m)]
+        | _, _ => vbad end
+      | 11, [d; a] =>
+        match as_list2 d, as_list a with
+        | Some d, Some [ig; c; _; pcs; _] =>
+          let oi := optinv04 ig inv in
+          VL [of_res vlist2 (stream_call_eval [48] [] (c04_fuel m []) d m oi (optarg04 c) pcs);
+              vlist2 (map_spec [] d (opt_default oi DEFAULT_INVALID) m)]
+        | _, _ => vbad end
+      | 12, [di; dv; a] =>
+        match as_list di, as_list dv, as_list a with
+        | Some di, Some dv, Some [ig; c; f; pcs; pvf] =>
+          let oi := optinv04 ig inv in
+          VL [of_res vpair2 (indexed_stream_call_eval (c04_fuel m di) di dv m oi (optarg04 c) (optarg04 f) pcs pvf);
+              vpair2 (indexed_spec di dv (opt_default oi DEFAULT_INVALID) m)]
+        | _, _, _ => vbad end
       | _, _ => vbad
       end
     end
